@@ -380,8 +380,240 @@ pub fn blend_cmd(args: &[String]) {
     }
     println!("{}", json!({"events": o.events, "vectors": o.vectors}));
 }
-pub fn readers_cmd(_args: &[String]) {
-    unimplemented!()
+/// cuts --in cases.ndjson --out events.ndjson
+/// For each case: load every strict prefix 0..eof-1 and the prefix of length eof and the full file.
+/// One event per file: results[k] = result class of the prefix of length k (k = 0..eof).
+pub fn cuts_cmd(args: &[String]) {
+    let input = arg(args, "--in").unwrap_or("-");
+    let mut out = Out::new(arg(args, "--out").unwrap_or("-"));
+    let max_eof: usize = arg(args, "--max").and_then(|s| s.parse().ok()).unwrap_or(1 << 20);
+    for line in read_lines(input) {
+        if line.trim().is_empty() {
+            continue;
+        }
+        let case: Value = serde_json::from_str(&line).unwrap();
+        let (bytes, _, enc) = case_bytes(&case);
+        let eof = enc.as_ref().map_or_else(|| case.get("eof").and_then(|e| e.as_u64()).map_or(bytes.len(), |e| e as usize), |e| e.end_of_frames);
+        if eof > max_eof {
+            continue;
+        }
+        let full = load_bytes(&bytes);
+        let full_obs = full.ase.as_ref().map(|a| observe::observe(a, &Limits { pixels: false, max_canvas: 1 << 16, max_cels: 4 }));
+        let mut results: Vec<String> = Vec::with_capacity(eof + 1);
+        let mut same_as_full: Vec<bool> = Vec::with_capacity(eof + 1);
+        for k in 0..=eof {
+            let ld = load_bytes(&bytes[..k]);
+            let same = match (&ld.ase, &full_obs) {
+                (Some(a), Some(fo)) => &observe::observe(a, &Limits { pixels: false, max_canvas: 1 << 16, max_cels: 4 }) == fo,
+                _ => false,
+            };
+            results.push(ld.result);
+            same_as_full.push(same);
+        }
+        out.ev(&json!({"ev": "cuts", "case": case["id"], "len": bytes.len(), "eof": eof, "full": full.result, "results": results, "same_as_full": same_as_full}));
+        out.flush();
+    }
+}
+
+// ---------------------------------------------------------------------------------------
+// C14: scripted readers. Only `read` is implemented, so std's read_exact loop is in play.
+
+#[derive(Debug)]
+struct Marker(u64);
+impl std::fmt::Display for Marker {
+    fn fmt(&self, f: &mut std::fmt::Formatter<'_>) -> std::fmt::Result {
+        write!(f, "injected error {}", self.0)
+    }
+}
+impl std::error::Error for Marker {}
+
+#[derive(Clone, Copy)]
+enum Op {
+    Full,
+    One,
+    Half,
+    Int,
+}
+
+struct Scripted<'a> {
+    data: &'a [u8],
+    pos: usize,
+    script: Vec<Op>,
+    i: usize,
+    err_at: Option<(usize, std::io::ErrorKind, i64)>,
+    log: Vec<(usize, i64)>,
+    marker: u64,
+}
+impl<'a> std::io::Read for Scripted<'a> {
+    fn read(&mut self, buf: &mut [u8]) -> std::io::Result<usize> {
+        if buf.is_empty() {
+            return Ok(0);
+        }
+        let len = buf.len();
+        if let Some((off, kind, code)) = self.err_at {
+            if self.pos == off {
+                self.log.push((len, code));
+                return Err(std::io::Error::new(kind, Marker(self.marker)));
+            }
+        }
+        let op = self.script[self.i % self.script.len()];
+        self.i += 1;
+        let mut room = self.data.len() - self.pos;
+        if let Some((off, _, _)) = self.err_at {
+            if off > self.pos {
+                room = room.min(off - self.pos);
+            }
+        }
+        if let Op::Int = op {
+            self.log.push((len, -1));
+            return Err(std::io::Error::new(std::io::ErrorKind::Interrupted, "interrupted"));
+        }
+        let want = match op {
+            Op::One => 1,
+            Op::Half => (len + 1) / 2,
+            _ => len,
+        };
+        let n = want.min(len).min(room);
+        buf[..n].copy_from_slice(&self.data[self.pos..self.pos + n]);
+        self.pos += n;
+        self.log.push((len, n as i64));
+        Ok(n)
+    }
+}
+
+fn light_obs(a: &AsepriteFile) -> Value {
+    observe::observe(a, &Limits { pixels: false, max_canvas: 1 << 16, max_cels: 4 })
+}
+
+fn run_scripted(bytes: &[u8], script: Vec<Op>, err_at: Option<(usize, std::io::ErrorKind, i64)>, marker: u64) -> (String, Vec<(usize, i64)>, Option<AsepriteFile>, bool) {
+    let mut rd = Scripted { data: bytes, pos: 0, script, i: 0, err_at, log: vec![], marker };
+    PANIC_INFO.with(|p| p.borrow_mut().take());
+    let r = catch_unwind(AssertUnwindSafe(|| AsepriteFile::read(&mut rd)));
+    let log = std::mem::take(&mut rd.log);
+    match r {
+        Ok(Ok(a)) => ("ok".into(), log, Some(a), false),
+        Ok(Err(e)) => {
+            // the returned error must carry the injected error as its source
+            let mut source_ok = false;
+            if let AsepriteParseError::IoError(io) = &e {
+                let direct = io.get_ref().and_then(|r| r.downcast_ref::<Marker>()).map_or(false, |m| m.0 == marker);
+                let via_source = std::error::Error::source(&e)
+                    .and_then(|s| s.downcast_ref::<std::io::Error>())
+                    .and_then(|io| io.get_ref())
+                    .and_then(|r| r.downcast_ref::<Marker>())
+                    .map_or(false, |m| m.0 == marker);
+                source_ok = direct && via_source;
+            }
+            (classify(&e), log, None, source_ok)
+        }
+        Err(_) => ("panic".into(), log, None, false),
+    }
+}
+
+fn script_from(desc: &str) -> Vec<Op> {
+    let v: Vec<Op> = desc
+        .chars()
+        .filter_map(|c| match c {
+            'F' => Some(Op::Full),
+            '1' => Some(Op::One),
+            'H' => Some(Op::Half),
+            'I' => Some(Op::Int),
+            _ => None,
+        })
+        .collect();
+    if v.iter().all(|o| matches!(o, Op::Int)) {
+        vec![Op::Full]
+    } else {
+        v
+    }
+}
+
+/// readers --in cases.ndjson --scripts F,1,H,I1,... --kinds 2,3 --out events [--every k]
+pub fn readers_cmd(args: &[String]) {
+    use std::io::ErrorKind as K;
+    let input = arg(args, "--in").unwrap_or("-");
+    let mut out = Out::new(arg(args, "--out").unwrap_or("-"));
+    let scripts: Vec<String> = arg(args, "--scripts").unwrap_or("F,1,H,IF,I1,1H,FI1H").split(',').map(|s| s.to_string()).collect();
+    let kinds: Vec<i64> = arg(args, "--kinds").unwrap_or("-2,-3").split(',').filter_map(|s| s.parse().ok()).collect();
+    let every: usize = arg(args, "--every").and_then(|s| s.parse().ok()).unwrap_or(1);
+    let rotate = flag(args, "--rotate");
+    let maxoff: usize = arg(args, "--maxoff").and_then(|s| s.parse().ok()).unwrap_or(300);
+    let tmpdir = arg(args, "--tmp").unwrap_or("/var/tmp").to_string();
+    let kind_of = |c: i64| match c {
+        -2 => K::Other,
+        -3 => K::BrokenPipe,
+        -4 => K::PermissionDenied,
+        -5 => K::TimedOut,
+        -6 => K::ConnectionReset,
+        -7 => K::UnexpectedEof,
+        _ => K::InvalidData,
+    };
+    let mut marker = 1000u64;
+    for line in read_lines(input) {
+        if line.trim().is_empty() {
+            continue;
+        }
+        let case: Value = serde_json::from_str(&line).unwrap();
+        let (bytes, _, enc) = case_bytes(&case);
+        let eof = enc.as_ref().map_or(bytes.len(), |e| e.end_of_frames);
+        let (r0, log0, a0, _) = run_scripted(&bytes, vec![Op::Full], None, 0);
+        let obs0 = a0.as_ref().map(light_obs);
+        out.ev(&json!({"ev": "base", "case": case["id"], "len": bytes.len(), "eof": eof, "result": r0, "calls": log0}));
+        if obs0.is_none() {
+            continue;
+        }
+        // scripts without hard error
+        for sc in &scripts {
+            let (r, log, a, _) = run_scripted(&bytes, script_from(sc), None, 0);
+            let eq = a.as_ref().map(light_obs) == obs0;
+            out.ev(&json!({"ev": "run", "script": sc, "len": bytes.len(), "result": r, "calls": log, "obs_equal": eq, "source_ok": false}));
+        }
+        // a hard error of each kind at every (every-th) byte offset, including offsets past the needed bytes
+        let mut si = 0usize;
+        // every = 0: automatic stride so that a file contributes at most ~maxoff offsets
+        let stride = if every == 0 { (bytes.len() / maxoff).max(1) } else { every };
+        for (oi, off) in (0..=bytes.len()).step_by(stride).enumerate() {
+            // --rotate: one kind per offset (kinds rotate over the offsets) instead of every kind at every offset
+            let ks: Vec<i64> = if rotate { vec![kinds[oi % kinds.len()]] } else { kinds.clone() };
+            for &kc in &ks {
+                marker += 1;
+                let sc = &scripts[si % scripts.len()];
+                si += 1;
+                let (r, log, a, source_ok) = run_scripted(&bytes, script_from(sc), Some((off, kind_of(kc), kc)), marker);
+                let eq = a.as_ref().map(light_obs) == obs0;
+                out.ev(&json!({"ev": "run", "script": format!("{}+err{}@{}", sc, kc, off), "len": bytes.len(), "result": r, "calls": log, "obs_equal": eq, "source_ok": source_ok}));
+            }
+        }
+        // other reader types
+        {
+            let rd = Scripted { data: &bytes, pos: 0, script: script_from("1HFI"), i: 0, err_at: None, log: vec![], marker: 0 };
+            let r = catch_unwind(AssertUnwindSafe(|| AsepriteFile::read(std::io::BufReader::with_capacity(7, rd))));
+            let (res, eq) = match r {
+                Ok(Ok(a)) => ("ok".to_string(), Some(light_obs(&a)) == obs0),
+                Ok(Err(e)) => (classify(&e), false),
+                Err(_) => ("panic".into(), false),
+            };
+            out.ev(&json!({"ev": "variant", "kind": "bufreader(7)+script", "result": res, "obs_equal": eq}));
+            let r = catch_unwind(AssertUnwindSafe(|| AsepriteFile::read(std::io::Cursor::new(bytes.clone()))));
+            let (res, eq) = match r {
+                Ok(Ok(a)) => ("ok".to_string(), Some(light_obs(&a)) == obs0),
+                Ok(Err(e)) => (classify(&e), false),
+                Err(_) => ("panic".into(), false),
+            };
+            out.ev(&json!({"ev": "variant", "kind": "cursor", "result": res, "obs_equal": eq}));
+            let path = format!("{}/asever-{}-{}.aseprite", tmpdir, std::process::id(), marker);
+            std::fs::write(&path, &bytes).unwrap();
+            let r = catch_unwind(AssertUnwindSafe(|| AsepriteFile::read_file(std::path::Path::new(&path))));
+            let _ = std::fs::remove_file(&path);
+            let (res, eq) = match r {
+                Ok(Ok(a)) => ("ok".to_string(), Some(light_obs(&a)) == obs0),
+                Ok(Err(e)) => (classify(&e), false),
+                Err(_) => ("panic".into(), false),
+            };
+            out.ev(&json!({"ev": "variant", "kind": "read_file", "result": res, "obs_equal": eq}));
+        }
+        out.flush();
+    }
 }
 pub fn threads_cmd(_args: &[String]) {
     unimplemented!()
